@@ -34,10 +34,11 @@ const (
 	rcFwdPutSmall
 	rcFwdDelete
 	rcPoll
+	rcRecover
 	nRC
 )
 
-var rcName = []string{"leader:put(130KiB)", "leader:put(small)", "follower-api:put(130KiB)", "follower-api:put(small)", "follower-api:delete(a key whose forwarded put was acknowledged)", "follower:poll"}
+var rcName = []string{"leader:put(130KiB)", "leader:put(small)", "follower-api:put(130KiB)", "follower-api:put(small)", "follower-api:delete(a key whose forwarded put was acknowledged)", "follower:poll", "follower:table-recovers-from-the-leader's-snapshot"}
 
 type CaseC struct {
 	Kind string   `json:"kind"`
@@ -52,6 +53,8 @@ type realCall struct {
 	err  error
 	ok   bool
 	read string
+	// acknowledged while the table's snapshot recovery was in progress (see D12 in DESIGN.md)
+	duringRecover bool
 }
 
 type realWorld struct {
@@ -63,6 +66,8 @@ type realWorld struct {
 
 	mu      sync.Mutex
 	pending []*realCall
+
+	recovering atomic.Bool // a snapshot recovery of the path's table is in progress
 }
 
 // settle gives acknowledged calls the time to run their read-back while the caller (the apply path
@@ -164,6 +169,7 @@ func (w *realWorld) runPath(path []int) (viols [][2]string, outcome string, inco
 			}
 			c.err = err
 			c.ok = true
+			c.duringRecover = w.recovering.Load()
 			if err == nil {
 				// read-your-writes: a read on the same node right after the acknowledgement
 				rr, rerr := w.srv.Range(context.Background(), &regattapb.RangeRequest{Table: []byte(name), Key: []byte(key)})
@@ -234,6 +240,18 @@ func (w *realWorld) runPath(path []int) (viols [][2]string, outcome string, inco
 				return nil, "", "poll: " + err.Error()
 			}
 			fmt.Fprintf(&sb, "p%d;", res)
+		case rcRecover:
+			// what the worker does when the leader answers that its log no longer reaches back far enough
+			// (it may do so at any time): stream the leader's snapshot and load it into a new shard
+			w.recovering.Store(true)
+			err := wk.Recover()
+			w.recovering.Store(false)
+			if err != nil {
+				return nil, "", "recover: " + err.Error()
+			}
+			if err := w.follower.WaitTable(name, 20*time.Second); err != nil {
+				return nil, "", err.Error()
+			}
 		}
 		w.settle()
 		w.mu.Lock()
@@ -243,7 +261,12 @@ func (w *realWorld) runPath(path []int) (viols [][2]string, outcome string, inco
 				if c.del {
 					what = "delete"
 				}
-				viols = append(viols, [2]string{"real/acknowledged-write-not-readable-on-the-node/" + what, fmt.Sprintf("call %d (%s %s) returned nil; read on the node right afterwards: %s", i, what, c.key, c.read)})
+				sig := "real/acknowledged-write-not-readable-on-the-node/" + what
+				if c.duringRecover {
+					// the acknowledgement came while Manager.Restore was loading the table's recovery shard
+					sig = "real/write-acknowledged-by-the-recovery-shard-before-it-serves-the-table/" + what
+				}
+				viols = append(viols, [2]string{sig, fmt.Sprintf("call %d (%s %s) returned nil; read on the node right afterwards: %s", i, what, c.key, c.read)})
 				c.ok = true // once
 			}
 		}
@@ -304,7 +327,7 @@ func TestRealReplicationPath(t *testing.T) {
 	if run.Thorough() {
 		depth = 4
 	}
-	run.Rule(fmt.Sprintf("Part C: every event sequence of length 1..%d over %v with at least one call through the follower API, on real leader and follower engines joined by the real log server, replication worker (polled step by step), notification queue and forwarding server; the follower's apply path is parked after every notification until the clients it released have read back; invariants: a call that returns nil finds its write (resp. its delete) on the follower at that moment; once the follower tails, every call has been answered without error", depth, rcName))
+	run.Rule(fmt.Sprintf("Part C: every event sequence of length 1..%d over %v with at least one call through the follower API and at most one snapshot recovery, on real leader and follower engines joined by the real log server, replication worker (polled step by step), notification queue and forwarding server; the follower's apply path is parked after every notification until the clients it released have read back; invariants: a call that returns nil finds its write (resp. its delete) on the follower at that moment; once the follower tails, every call has been answered without error", depth, rcName))
 	const nWorlds = 4
 	worlds := make([]*realWorld, 0, nWorlds)
 	for i := 0; i < nWorlds; i++ {
@@ -337,13 +360,16 @@ func TestRealReplicationPath(t *testing.T) {
 					return
 				}
 				path := par.SeqAt(nRC, depth, i)
-				fwd := false
+				fwd, recovers := false, 0
 				for _, e := range path {
 					if e == rcFwdPutBig || e == rcFwdPutSmall {
 						fwd = true
 					}
+					if e == rcRecover {
+						recovers++
+					}
 				}
-				if !fwd {
+				if !fwd || recovers > 1 {
 					continue
 				}
 				vs, outcome, inc := w.runPath(path)
